@@ -42,7 +42,7 @@ impl Shape {
             OOp::Clone(_) if !self.unique && self.owners > 0 && self.owners < 4 => self.owners += 1,
             OOp::CloneFromOther(_) if !self.unique && self.owners > 0 => self.owners -= 1,
             OOp::HandlesUnderGuard(_, _, k) if !self.unique && self.owners > 1 && k % 3 == 1 => self.owners -= 1,
-            OOp::DropOwner(_) => {
+            OOp::DropOwner(_) | OOp::DropOwnerUnwinding(_) => {
                 if self.unique {
                     self.uniq_alive = false;
                 } else if self.owners > 0 {
@@ -60,7 +60,7 @@ impl Shape {
             }
             OOp::Subscribe(_) | OOp::SubscribeReset(_) if self.has_owner() && self.subs < 5 => self.subs += 1,
             OOp::SClone(_) | OOp::SCloneReset(_) if self.subs > 0 && self.subs < 5 => self.subs += 1,
-            OOp::SDrop(_) if self.subs > 0 => self.subs -= 1,
+            OOp::SDrop(_) | OOp::SubCloneFromOther(_) if self.subs > 0 => self.subs -= 1,
             _ => {}
         }
     }
@@ -148,7 +148,7 @@ fn alphabet(focus: Focus, sh: &Shape, max_subs: usize) -> Vec<OOp> {
         }
         Focus::Handles => {
             if sh.has_owner() {
-                a.extend([OOp::Set(0, B), OOp::DropOwner(0)]);
+                a.extend([OOp::Set(0, B), OOp::DropOwner(0), OOp::DropOwnerUnwinding(0)]);
                 if sh.subs < max_subs {
                     a.push(OOp::Subscribe(0));
                 }
@@ -168,7 +168,7 @@ fn alphabet(focus: Focus, sh: &Shape, max_subs: usize) -> Vec<OOp> {
                 a.extend([OOp::Upgrade(0), OOp::CloneWeak(0), OOp::DropWeak(0)]);
             }
             if sh.subs > 0 {
-                a.extend([OOp::Poll(0), OOp::SGet(0), OOp::SDrop(0), OOp::Reset(0)]);
+                a.extend([OOp::Poll(0), OOp::SGet(0), OOp::SDrop(0), OOp::Reset(0), OOp::SubCloneFromOther(0)]);
                 if sh.subs < max_subs {
                     a.extend([OOp::SClone(0), OOp::SCloneReset(0)]);
                 }
@@ -258,12 +258,24 @@ pub fn gen_obs_history(rng: &mut Rng, shared: bool, min: usize, max: usize) -> O
                 2 => OOp::SubscribeReset(h),
                 3 => OOp::SClone(s),
                 4 => OOp::SCloneReset(s),
-                _ => OOp::SDrop(s),
+                _ => {
+                    if rng.chance(1, 3) {
+                        OOp::SubCloneFromOther(s)
+                    } else {
+                        OOp::SDrop(s)
+                    }
+                }
             }
         } else {
             match rng.below(9) {
                 0 | 1 => OOp::Clone(h),
-                2 => OOp::DropOwner(h),
+                2 => {
+                    if rng.chance(1, 4) {
+                        OOp::DropOwnerUnwinding(h)
+                    } else {
+                        OOp::DropOwner(h)
+                    }
+                }
                 3 => OOp::Downgrade(h),
                 4 => OOp::Upgrade(h),
                 5 => OOp::CloneWeak(h),
@@ -552,7 +564,9 @@ pub fn run_guard_scripts(prop: &str, p: &Params, n: u64) -> Outcome {
                 out.ev.count(match kind {
                     0 => "guard_scripts_writer_holds",
                     1 => "guard_scripts_writer_waits",
-                    _ => "guard_scripts_next_and_writer_queued",
+                    2 => "guard_scripts_next_and_writer_queued",
+                    3 => "guard_scripts_two_queued_setters",
+                    _ => "guard_scripts_queued_next_now",
                 });
                 out.ev.nontrivial(hash_of(&log));
                 if out.ev.samples.len() < 2 {
@@ -652,8 +666,177 @@ fn guard_script(rng: &mut Rng, log: &mut Vec<String>) -> Result<u8, String> {
             }
         }
     }
-    let script = rng.below(3) as u8;
-    if script == 2 {
+    let script = rng.below(5) as u8;
+    if script == 3 {
+        // ---- two writers queue behind a write guard, at least one of them conditional, both storing the same
+        // value: the pair of results must be what one of the two orders gives
+        let v = if rng.chance(1, 4) { value } else { gen_val(rng) };
+        let a_hash = rng.chance(1, 3);
+        let b_kind = rng.below(3); // 0 = set, 1 = set_if_not_eq, 2 = set_if_hash_not_eq
+        let g = bo(ob.write())?;
+        log.push("write guard acquired".into());
+        let mut fa: std::pin::Pin<Box<dyn Future<Output = Option<Val>> + '_>> = if a_hash {
+            Box::pin(async { ob2.set_if_hash_not_eq(Hk::new(v)).await.map(|h| h.val()) })
+        } else {
+            Box::pin(async { ob2.set_if_not_eq(Hk::new(v)).await.map(|h| h.val()) })
+        };
+        let mut fb: std::pin::Pin<Box<dyn Future<Output = Option<Val>> + '_>> = match b_kind {
+            0 => Box::pin(async { Some(ob.set(Hk::new(v)).await.val()) }),
+            1 => Box::pin(async { ob.set_if_not_eq(Hk::new(v)).await.map(|h| h.val()) }),
+            _ => Box::pin(async { ob.set_if_hash_not_eq(Hk::new(v)).await.map(|h| h.val()) }),
+        };
+        let a_first = rng.chance(1, 2);
+        let (_f1, w1) = flag_waker();
+        let (_f2, w2) = flag_waker();
+        let (pa, pb) = if a_first {
+            let pa = fa.as_mut().poll(&mut Context::from_waker(&w1));
+            (pa, fb.as_mut().poll(&mut Context::from_waker(&w2)))
+        } else {
+            let pb = fb.as_mut().poll(&mut Context::from_waker(&w2));
+            (fa.as_mut().poll(&mut Context::from_waker(&w1)), pb)
+        };
+        if pa.is_ready() || pb.is_ready() {
+            return Err("a setter completed while a write guard was held".into());
+        }
+        log.push(format!(
+            "A = {}({v:?}) and B = {}({v:?}) polled while the write guard is held ({} first) -> Pending",
+            if a_hash { "set_if_hash_not_eq" } else { "set_if_not_eq" },
+            ["set", "set_if_not_eq", "set_if_hash_not_eq"][b_kind],
+            if a_first { "A" } else { "B" }
+        ));
+        drop(g);
+        let (mut ra, mut rb): (Option<Option<Val>>, Option<Option<Val>>) = (None, None);
+        let start_a = rng.chance(1, 2);
+        for round in 0..16 {
+            let a_turn = (round % 2 == 0) == start_a;
+            let (_f, w) = flag_waker();
+            if a_turn && ra.is_none() {
+                if let Poll::Ready(x) = fa.as_mut().poll(&mut Context::from_waker(&w)) {
+                    ra = Some(x);
+                }
+            } else if !a_turn && rb.is_none() {
+                if let Poll::Ready(x) = fb.as_mut().poll(&mut Context::from_waker(&w)) {
+                    rb = Some(x);
+                }
+            }
+            if ra.is_some() && rb.is_some() {
+                break;
+            }
+        }
+        drop(fa);
+        drop(fb);
+        let (Some(ra), Some(rb)) = (ra, rb) else {
+            return Err(format!("after the write guard was dropped the two queued setters did not complete (A: {ra:?}, B: {rb:?})"));
+        };
+        log.push(format!("A -> {ra:?}; B -> {rb:?}"));
+        // sequential explanations
+        let differs = |cur: Val, new: Val, by_hash: bool| if by_hash { crate::engine_obs::hash_val(cur) != crate::engine_obs::hash_val(new) } else { cur != new };
+        let run_a = |cur: Val| -> (Option<Val>, Val, u64) { if differs(cur, v, a_hash) { (Some(cur), v, 1) } else { (None, cur, 0) } };
+        let run_b = |cur: Val| -> (Option<Val>, Val, u64) {
+            match b_kind {
+                0 => (Some(cur), v, 1),
+                1 => if differs(cur, v, false) { (Some(cur), v, 1) } else { (None, cur, 0) },
+                _ => if differs(cur, v, true) { (Some(cur), v, 1) } else { (None, cur, 0) },
+            }
+        };
+        let ab = {
+            let (xa, c1, n1) = run_a(value);
+            let (xb, c2, n2) = run_b(c1);
+            (xa, xb, c2, n1 + n2)
+        };
+        let ba = {
+            let (xb, c1, n1) = run_b(value);
+            let (xa, c2, n2) = run_a(c1);
+            (xa, xb, c2, n1 + n2)
+        };
+        let got_val = bo(ob.get())?.val();
+        let m = [ab, ba].into_iter().find(|(xa, xb, fin, _)| *xa == ra && *xb == rb && *fin == got_val);
+        let Some((_, _, fin, bumps)) = m else {
+            return Err(format!(
+                "[C01|C04|C16] two queued setters storing {v:?} over {value:?} returned A = {ra:?}, B = {rb:?} (value now {got_val:?}); A then B gives {:?}, B then A gives {:?}",
+                (ab.0, ab.1, ab.2),
+                (ba.0, ba.1, ba.2)
+            ));
+        };
+        value = fin;
+        version += bumps;
+        for i in 0..k {
+            let (r, _f) = poll_sub(&mut subs[i], rng.below(3));
+            let expect = if observed[i] < version { Poll::Ready(Some(value)) } else { Poll::Pending };
+            if r != expect {
+                return Err(format!("[C01|C16] after the two setters s{i} answered {r:?}, expected {expect:?}"));
+            }
+            if r.is_ready() {
+                observed[i] = version;
+                reg_flags[i] = None;
+            } else {
+                reg_flags[i] = Some(_f);
+            }
+        }
+    } else if script == 4 {
+        // ---- next_now() / next_ref_now() started while a write guard is held (the lock is contended when the
+        // call starts): it returns the value stored through the guard and marks it observed
+        let i = rng.below(k);
+        let v1 = gen_val(rng);
+        let by_ref = rng.chance(1, 2);
+        let mut g = bo(ob.write())?;
+        log.push("write guard acquired".into());
+        let got: Val;
+        {
+            let sub = &mut subs[i];
+            let mut nf: std::pin::Pin<Box<dyn Future<Output = Val> + '_>> = if by_ref {
+                Box::pin(async move { sub.next_ref_now().await.val() })
+            } else {
+                Box::pin(async move { sub.next_now().await.val() })
+            };
+            let (fl, wk) = flag_waker();
+            if nf.as_mut().poll(&mut Context::from_waker(&wk)).is_ready() {
+                return Err("next_now() completed while a write guard was held".into());
+            }
+            let prev0 = ObservableWriteGuard::set(&mut g, Hk::new(v1)).val();
+            if prev0 != value {
+                return Err(format!("guard.set returned {prev0:?}, previous value is {value:?}"));
+            }
+            drop(g);
+            log.push(format!("s{i}.{}() polled while the write guard is held -> Pending; guard.set({v1:?}); guard dropped", if by_ref { "next_ref_now" } else { "next_now" }));
+            if !fl.woken() {
+                return Err("the queued next_now() was not woken when the write guard was dropped".into());
+            }
+            let mut r = None;
+            for _ in 0..8 {
+                let (_f, w) = flag_waker();
+                if let Poll::Ready(x) = nf.as_mut().poll(&mut Context::from_waker(&w)) {
+                    r = Some(x);
+                    break;
+                }
+            }
+            let Some(x) = r else { return Err("the queued next_now() did not complete after the guard was dropped".into()) };
+            got = x;
+        }
+        value = v1;
+        version += 1;
+        log.push(format!("next_now -> {got:?}"));
+        if got != v1 {
+            return Err(format!("[C01|C16] next_now() completed after the guard stored {v1:?} but returned {got:?}"));
+        }
+        let (r, f) = poll_sub(&mut subs[i], rng.below(3));
+        log.push(format!("poll s{i} -> {r:?}"));
+        if r != Poll::Pending {
+            return Err(format!("[C01|C16] next_now() handed out the latest value {v1:?} (which marks it observed), yet the following poll answers {r:?}"));
+        }
+        observed[i] = version;
+        reg_flags[i] = Some(f);
+        for j in 0..k {
+            if j != i {
+                let (r, _f) = poll_sub(&mut subs[j], rng.below(3));
+                if r != Poll::Ready(Some(value)) {
+                    return Err(format!("s{j} answered {r:?} after the update through the guard, expected Ready(Some({value:?}))"));
+                }
+                observed[j] = version;
+                reg_flags[j] = None;
+            }
+        }
+    } else if script == 2 {
         // ---- a subscriber's next()/next_ref() future and a writer both queue behind a write guard
         let i = rng.below(k);
         let v1 = gen_val(rng);
